@@ -403,3 +403,41 @@ fn c18_flex_from_iterator_exact_fill() {
     let y = it.next().unwrap();
     assert!(y.len() == 2 && y[0] == x && y[1] == x, "C18,C03: item contents differ from what was emplaced");
 }
+
+/// C11 / C14 / C05: FlatString with a wide length type mapped on a buffer whose length is not a multiple of the alignment:
+/// the capacity is what fits behind the header rounded DOWN, growth beyond it is refused, size() stays inside the buffer
+#[kani::proof]
+#[kani::unwind(14)]
+fn c11_string_u32_odd_buffer() {
+    let mut back = [0u8; 16];
+    kani::assume((back.as_ptr() as usize) % 4 == 0);
+    let c: u8 = kani::any();
+    kani::assume(c < 0x80);
+    {
+        let s = FlatString::<u32>::default_in_place(&mut back[..11]).unwrap();
+        assert!(s.capacity() == 4, "C11,C04: capacity differs from the model (room behind the header, rounded down to the alignment)");
+        let mut i = 0;
+        while i < 4 { assert!(s.push(c as char).is_ok(), "C11: push below the capacity refused"); i += 1; }
+        assert!(s.push(c as char).is_err(), "C11,C13: push beyond the capacity accepted");
+        assert!(s.len() == 4 && s.size() == 8 && s.size() <= 11, "C11,C05: len / size() differ from the model");
+    }
+    assert!(back[11] == 0 && back[8] == 0, "C14: bytes outside the mapped string were written");
+    assert!(FlatString::<u32>::validate(&back[..11]).is_ok(), "C11: bytes do not validate after the operations");
+}
+
+/// C03 / C04: FlatVec with a PORTABLE length type (alignment 1, size 2): the items start behind the whole length word
+#[kani::proof]
+#[kani::unwind(10)]
+fn c03_vec_u8_le16_image() {
+    let mut back = [0xEEu8; 12];
+    let (a, b, c): (u8, u8, u8) = (kani::any(), kani::any(), kani::any());
+    {
+        let v = FlatVec::<u8, le::U16>::new_in_place(&mut back[1..9], flat_vec![a, b, c]).unwrap();
+        assert!(v.len() == 3 && v.capacity() == 6 && v.size() == 5, "C03,C04,C05: len / capacity / size() differ from the reference layout");
+        assert!(v[0] == a && v[1] == b && v[2] == c, "C03: read-back differs from what was emplaced");
+    }
+    let m = &back[1..9];
+    assert!(m[0] == 3 && m[1] == 0 && m[2] == a && m[3] == b && m[4] == c, "C03,C17: image differs from the reference encoding");
+    assert!(back[0] == 0xEE && back[9] == 0xEE && m[5] == 0xEE, "C14: bytes outside the value were written");
+    assert!(FlatVec::<u8, le::U16>::validate(m).is_ok(), "C03: emplaced value does not validate");
+}
